@@ -39,8 +39,11 @@ def one(sid, claimed, run_all):
             ev = f"/tmp/sr-ev-{sid}"
             rc, out = sh(f"{BIN} check -p {p} -tier quick -evidence {ev}", env=env)
             if rc != 0:
-                lines = [l.strip() for l in out.splitlines() if l.startswith("  ")]
-                caught_by[p] = lines[:3]
+                lines = [l.strip() for l in out.splitlines() if l.startswith("  ") and "rule R" in l]
+                if "VIOLATION property=" in out and lines:
+                    caught_by[p] = lines[:3]
+                else:
+                    print(f"!! {sid} {p}: checker failed without a rule violation:", out[-300:].replace("\n", " | "), flush=True)
             shutil.rmtree(ev, ignore_errors=True)
         return sid, {"property": prop, "applies": True, "claimed": prop in claimed, "caught": bool(caught_by), "caught_by": caught_by,
                      "summary": meta.get("summary", "")[:300]}
